@@ -14,7 +14,7 @@ TECHNIQUE = 'symbolic execution of similarity.distance_to_similarity / squash on
 BUDGET = {'quick': 300, 'thorough': 1800}
 SOURCES = ['src/dtaidistance/similarity.py']
 FUNCTIONS = ['similarity.distance_to_similarity', 'similarity.squash']
-BOUNDS = {'quick': {'array shapes': '(1,), (2,), (3,), (1,2), (2,2)', 'r, a, x0': 'None | symbolic > 0', 'cover_quantile': 'False, 0.5, (0.5, 0.25)',
+BOUNDS = {'quick': {'array shapes': '(1,), (2,), (3,), (1,2), (2,2)', 'r, x0': 'None | symbolic > 0', 'a': '0.5 (derived from the quantile when cover_quantile is given)', 'cover_quantile': 'False, 0.5, (0.5, 0.25)',
                     'keep_sign': 'False (True for squash with sizes <= 2)', 'base': 'None, 2'},
           'thorough': {'array shapes': '+ (4,), (1,3), (2,3)', 'cover_quantile': 'False, 0.25, 0.5, 0.9, (0.5, 0.25), (0.9, 0.5)'}}
 OUTSIDE = ['numerical accuracy of exp / log / power', 'all-zero distance arrays (the documented default scale max(D) is 0: the formula is undefined)',
